@@ -156,6 +156,11 @@ def run_job(job, cwd_bin):
         pol = POLICIES[job["policy"]["name"]](dict(job["policy"], **cfg))
     SR.reset(pol)
     gen = None
+    import signal
+    def _alarm(signum, frame):
+        raise TimeoutError("generation exceeded the per-job time limit")
+    signal.signal(signal.SIGALRM, _alarm)
+    signal.alarm(int(job.get("time_limit", 90)))
     try:
         if job.get("seed_first", False):
             random.seed(job["seed"])
@@ -175,7 +180,9 @@ def run_job(job, cwd_bin):
         gen.main()
     except BaseException as e:  # noqa
         res["exc"] = type(e).__name__
-    res["log"] = list(SR.LOG)
+    finally:
+        signal.alarm(0)
+    res["log"] = list(SR.LOG) if res["exc"] != "TimeoutError" else list(SR.LOG)[:2000]
     out = {}
     for k, f in files.items():
         p = os.path.join(cwd_bin, f) if not (job["variant"] == "fixer" and k == "ss") else "bin/ss.bin"
@@ -203,6 +210,11 @@ def run_job(job, cwd_bin):
 
 
 def main():
+    import resource
+    try:   # a runaway allocation must fail the job (MemoryError), not the machine
+        resource.setrlimit(resource.RLIMIT_AS, (12 << 30, 12 << 30))
+    except Exception:  # noqa
+        pass
     SR.install()
     jobs = json.load(sys.stdin)
     os.makedirs("bin", exist_ok=True)
